@@ -760,6 +760,12 @@ pub fn parent_main(world: &'static dyn World, tier: Tier) -> i32 {
                         && o.violation.as_ref().map(|v| &v.class) == Some(&f.violation.class)
                 }),
             };
+            if !again && is_hang {
+                // Reproduced once with the longer limit and not again: the watchdog's wall clock
+                // under machine load, not the (deterministic) simulated execution.
+                agg.watchdog_load_timeouts += 1;
+                continue;
+            }
             if !again {
                 agg.harness_errors.push(format!(
                     "run {} reported {} ({}) but it did not reproduce in a fresh process",
